@@ -315,9 +315,9 @@ Definition spec_send_allowed (s : sd) (stream : N) : bool :=
 Definition refused_not_allowed (c : N) (ob : obs) : bool :=
   existsb (fun e => N.eqb (fst e) c && match snd e with SError code => N.eqb code 14 | _ => false end) (all_msgs ob).
 
-(* the gate itself: an offer (message kind 0), and a candidate for the sender's own stream (kind 2, addressed to
-   itself), is answered "not_allowed" exactly when the permission for that stream type is missing (and then nothing
-   is created at the media server) *)
+(* the gate itself: an offer (message kind 0), a candidate / answer / endOfCandidates for the sender's own stream
+   (kinds 2 / 4 / 7, addressed to itself) and a sendoffer (kind 3) are answered "not_allowed" exactly when the
+   permission for that stream type is missing (and then nothing is created at the media server) *)
 Definition step_C08_gate (pd : digest) (o : op) (ob : obs) : bool :=
   match o with
   | OMedia c (RSession i) mk stream media =>
@@ -328,8 +328,22 @@ Definition step_C08_gate (pd : digest) (o : op) (ob : obs) : bool :=
             let ok := spec_offer_allowed s stream media in
             Bool.eqb (refused_not_allowed c ob) (negb ok)
             && (ok || forallb (fun e => match e with MCreate _ _ _ _ _ => false | _ => true end) ob.(o_mcu))
-          else if N.eqb mk 2 && match i with IdPub n => N.eqb n s.(d_sid) | _ => false end then
+          else if (N.eqb mk 2 || N.eqb mk 4 || N.eqb mk 7) && match i with IdPub n => N.eqb n s.(d_sid) | _ => false end then
+            (* candidate, answer, endOfCandidates for the sender's own stream *)
             Bool.eqb (refused_not_allowed c ob) (negb (spec_send_allowed s stream))
+          else if N.eqb mk 3 then
+            (* sendoffer: dropped without an answer when it names the sender itself or a session of another
+               backend; otherwise refused exactly when the permission for the stream type is missing; a refused
+               or dropped one creates nothing, and one that names no session creates nothing either *)
+            let ok := spec_send_allowed s stream in
+            let nocreate := forallb (fun e => match e with MCreate _ _ _ _ _ => false | _ => true end) ob.(o_mcu) in
+            match match i with IdPub n => find_sd pd n | _ => None end with
+            | Some t =>
+                if negb (N.eqb t.(d_backend) s.(d_backend)) || N.eqb t.(d_sid) s.(d_sid)
+                then negb (refused_not_allowed c ob) && nocreate
+                else Bool.eqb (refused_not_allowed c ob) (negb ok) && (ok || nocreate)
+            | None => Bool.eqb (refused_not_allowed c ob) (negb ok) && nocreate
+            end
           else true
       | None => true end
   | _ => true
@@ -344,11 +358,20 @@ Definition step_C08 (pd : digest) (o : op) (ob : obs) (dg : digest) : bool :=
                                                    | Some s => N.eqb s.(d_sid) owner && N.eqb st stream && spec_offer_allowed s stream media
                                                    | None => false end
                         | _ => false end
-                    | MCreate _ _ owner _ pubof =>
+                    | MCreate _ _ owner stream pubof =>
                         match o with
                         | OMedia c _ 1 _ _ => match sd_of_conn pd c with
                                               | Some s => N.eqb s.(d_sid) owner && spec_same_call pd s pubof
                                               | None => false end
+                        (* sendoffer: a subscriber to the SENDER's stream, for the session the message names (the owner of a
+                           virtual session), if the sender may send that stream type *)
+                        | OMedia c (RSession (IdPub n)) 3 st _ =>
+                            match sd_of_conn pd c, find_sd pd n with
+                            | Some s, Some t =>
+                                negb (is_virtual_d s) && N.eqb s.(d_sid) pubof && N.eqb st stream && spec_send_allowed s stream
+                                && N.eqb t.(d_backend) s.(d_backend) && negb (N.eqb t.(d_sid) s.(d_sid))
+                                && N.eqb owner (if is_virtual_d t then t.(d_parent) else t.(d_sid))
+                            | _, _ => false end
                         | _ => false end
                     | _ => true end) ob.(o_mcu)
   (* nobody holds a publisher it may not have *)
